@@ -18,11 +18,46 @@ INT_TYPES = [  # (cython type, tag, width, signed)
 ]
 
 
+def _canon(v):
+    inf = float("inf")
+    if isinstance(v, float):
+        return 'float:' + (v.hex() if v == v and v not in (inf, -inf) else repr(v))
+    if isinstance(v, complex):
+        return 'complex:' + _canon(v.real) + ',' + _canon(v.imag)
+    if isinstance(v, (tuple, list)):
+        return type(v).__name__ + ':[' + ';'.join(_canon(x) for x in v) + ']'
+    return type(v).__name__ + ':' + repr(v)
+
+
+class _RP(int):
+    def __rpow__(self, other, mod=None):
+        return ('rpow', int(self), other)
+
+
+class _Plain(int):
+    pass
+
+
+class _Refuses(int):
+    def __rpow__(self, other, mod=None):
+        raise ArithmeticError('no')
+
+
+class _TwinNS:
+    RP, Plain, Refuses = _RP, _Plain, _Refuses
+
+
+_TWIN = _TwinNS
+
+
 def ipow_module():
     out = ["# cython: language_level=3, cpow=True", "cimport cython"]
     for ct, tag, w, sg in INT_TYPES:
         out.append("def ipow_%s(%s b, %s e):\n    cdef %s r = b ** e\n    return r" % (tag, ct, ct, ct))
         out.append("def rt_%s(%s b, %s e):\n    return cython.typeof(b ** e)" % (tag, ct, ct))
+    out.append("class RP(int):\n    def __rpow__(self, other, mod=None):\n        return ('rpow', int(self), other)")
+    out.append("class Plain(int):\n    pass")
+    out.append("class Refuses(int):\n    def __rpow__(self, other, mod=None):\n        raise ArithmeticError('no')")
     out.append("def p2(object n):\n    return 2 ** n")
     out.append("def p2i(object n):\n    x = 2\n    x **= n\n    return x")
     return "\n".join(out) + "\n"
@@ -115,21 +150,23 @@ def run(ctx):
         # ---------------- (b) 2 ** n
         ns = list(range(-5, 141)) + [True, False, 1000, 10 ** 4, 14000, -2 ** 31]
         srcs = [repr(n) for n in ns] + ["1.5", "'x'", "None", "-0.5", "2.0"]
+        # int subclasses: CPython gives the right operand's __rpow__ priority; the 2**n fast path must not bypass it
+        srcs += ["mod.RP(3)", "mod.RP(0)", "mod.RP(70)", "mod.RP(-2)", "mod.Plain(5)", "mod.Plain(64)", "mod.Plain(-1)", "mod.Refuses(4)"]
         outs = cybuild.run_cases(ctx, so_ipow, [("p2", "(%s,)" % s) for s in srcs] + [("p2i", "(%s,)" % s) for s in srcs])
         ints = [n for n in ns if not isinstance(n, bool) and abs(n) < 10 ** 5]
         mouts = dict(zip(ints, ctx.drv.batch(["C07 pow2 %d" % n for n in ints])))
         for k, (s, got) in enumerate(zip(srcs + srcs, outs)):
             try:
-                v = 2 ** eval(s)
-                exp = "ok %s:%s" % (type(v).__name__, v.hex() if isinstance(v, float) else repr(v))
+                v = 2 ** eval(s, {"mod": _TWIN})
+                exp = "ok " + _canon(v)
             except Exception as ex:
                 exp = "err " + type(ex).__name__
             ctx.count("pow2")
             ctx.seen(("pow2", k), nontrivial=True)
             if got != exp:
                 ctx.violation("pow2-object", "2 ** %s compiled=%s CPython=%s" % (s, got, exp), {"pow2": s, "impl": got, "oracle": exp})
-            n = eval(s)
-            if isinstance(n, int) and not isinstance(n, bool) and n in mouts:
+            n = eval(s, {"mod": _TWIN})
+            if type(n) is int and not isinstance(n, bool) and n in mouts:
                 m = mouts[n]
                 if m != "ok fallback" and got != "ok int:" + m[3:]:
                     ctx.tie_break("D-c PowerOf2 vs CyVerif.C07.powerOf2", "2 ** %d: model %s impl %s" % (n, m, got), {"pow2": s})
